@@ -14,6 +14,7 @@
 #include <unistd.h>
 
 #include <algorithm>
+#include <atomic>
 #include <map>
 #include <iostream>
 #include <set>
@@ -557,6 +558,313 @@ void c26_case(Ctx& c, Rng& r) {
     for (int fd : after) if (!baseline.count(fd)) { c.violation("C26:release:descriptor-leak-after-server-stop", J().kv("fd", fd).str()); break; }
 }
 HX_PROPERTY("C26", c26_case);
+
+// ------------------------------------------------------------------------------------ threaded mode (C25t / C26t)
+// The real event loop (EventLoop::run on its own thread, epoll, the callbacks registered by RelayServer) serves
+// concurrent client threads.  Clients only observe their own sockets while the loop runs; the server's tables are
+// read after the loop thread has been joined, and leftover events are then served single-threaded, so that the
+// completeness verdict never depends on a wall-clock deadline.
+struct TClient {
+    int idx{0};
+    int fd{-1};
+    int role{0};                      // 0 target, 1 connector, 2 garbage
+    int peer{-1};                     // id registered (target) / id asked for (connector)
+    std::string self_hex;             // connector's own id
+    std::string rx;                   // every byte received
+    std::vector<std::string> sent;    // tokens in send order
+    unsigned seq{0};
+    bool sent_end{false};
+    bool closed{false};               // closed its socket while the loop was running
+    bool reply_ok{false};
+    bool send_failed{false};
+    std::uint64_t seed{0};
+};
+
+bool t_read(TClient& cl, int ms) {   // false on EOF / error
+    pollfd p{cl.fd, POLLIN, 0};
+    if (poll(&p, 1, ms) <= 0) return true;
+    char buf[65536];
+    const auto n = ::recv(cl.fd, buf, sizeof buf, MSG_DONTWAIT);
+    if (n > 0) { cl.rx.append(buf, static_cast<std::size_t>(n)); return true; }
+    if (n < 0 && (errno == EAGAIN || errno == EWOULDBLOCK || errno == EINTR)) return true;
+    return false;
+}
+bool t_send(TClient& cl, const std::string& bytes) {
+    std::size_t off = 0;
+    while (off < bytes.size()) {
+        pollfd p{cl.fd, POLLOUT | POLLIN, 0};
+        if (poll(&p, 1, 20000) <= 0) { cl.send_failed = true; return false; }
+        if (p.revents & POLLIN) { if (!t_read(cl, 0)) { cl.send_failed = true; return false; } }   // keep draining: no deadlock against a full relay buffer
+        if (!(p.revents & POLLOUT)) continue;
+        const auto n = ::send(cl.fd, bytes.data() + off, std::min<std::size_t>(bytes.size() - off, 32768), MSG_NOSIGNAL | MSG_DONTWAIT);
+        if (n > 0) off += static_cast<std::size_t>(n);
+        else if (n < 0 && errno != EAGAIN && errno != EWOULDBLOCK && errno != EINTR) { cl.send_failed = true; return false; }
+    }
+    return true;
+}
+std::string t_token(TClient& cl) {
+    std::string t = "<" + std::to_string(cl.idx) + ":" + std::to_string(cl.seq++) + ">";
+    cl.sent.push_back(t);
+    return t;
+}
+std::string t_end(const TClient& cl) { return "<" + std::to_string(cl.idx) + ":END>"; }
+
+void relay_threaded_case(Ctx& c, Rng& r, bool resources) {
+    const auto baseline = open_fds();
+    {
+        std::cout.setstate(std::ios::failbit);
+        EventLoop loop;
+        RelayServer server(loop, RelayServerConfig{"127.0.0.1", 0, std::chrono::seconds(10)});
+        if (!server.start()) { c.violation("harness:relay:server-start-failed", "{}"); return; }
+        sockaddr_in sa{};
+        socklen_t sl = sizeof sa;
+        getsockname(server.listen_fd_, reinterpret_cast<sockaddr*>(&sa), &sl);
+        const auto port = ntohs(sa.sin_port);
+        const auto with_server = open_fds();
+        std::thread loop_thread([&] { loop.run(); });
+
+        const int ntargets = 1 + static_cast<int>(r.below(4));
+        const int nconnectors = 1 + static_cast<int>(r.below(6));
+        const int ngarbage = static_cast<int>(r.below(3));
+        const int npeers = 1 + static_cast<int>(r.below(3));
+        const int n = ntargets + nconnectors + ngarbage;
+        std::vector<TClient> cl(n);
+        for (int i = 0; i < n; ++i) {
+            cl[i].idx = i;
+            cl[i].role = i < ntargets ? 0 : (i < ntargets + nconnectors ? 1 : 2);
+            cl[i].peer = static_cast<int>(r.below(npeers));
+            cl[i].self_hex = hex_id(100 + i);
+            cl[i].seed = r.next();
+        }
+        std::atomic<bool> connectors_done{false};
+        std::atomic<int> harness_errors{0};
+        auto connect_to = [&](TClient& x) {
+            x.fd = ::socket(AF_INET, SOCK_STREAM, 0);
+            sockaddr_in a{};
+            a.sin_family = AF_INET;
+            a.sin_port = htons(port);
+            inet_pton(AF_INET, "127.0.0.1", &a.sin_addr);
+            if (::connect(x.fd, reinterpret_cast<sockaddr*>(&a), sizeof a) != 0) { harness_errors.fetch_add(1); return false; }
+            int one = 1;
+            setsockopt(x.fd, IPPROTO_TCP, TCP_NODELAY, &one, sizeof one);
+            return true;
+        };
+        auto jitter = [](Rng& q) { const auto k = q.below(4); if (k == 0) ::sched_yield(); else if (k == 1) ::usleep(static_cast<useconds_t>(q.below(400))); };
+        auto bridged_dialogue = [&](TClient& x, Rng& q) {
+            // bursts of tokens (sometimes more than the socket buffers hold), then the END marker; keep reading
+            const auto bursts = 1 + q.below(4);
+            const bool abrupt = q.chance(1, 4);
+            for (std::uint64_t b = 0; b < bursts; ++b) {
+                std::string d;
+                const auto cnt = q.chance(1, 6) ? 20000 + q.below(20000) : 1 + q.below(40);
+                for (std::uint64_t k = 0; k < cnt; ++k) d += t_token(x);
+                if (!t_send(x, d)) return;
+                jitter(q);
+                if (!t_read(x, 0)) return;
+                if (abrupt && b == bursts / 2) {
+                    if (q.chance(1, 2)) { linger lg{1, 0}; setsockopt(x.fd, SOL_SOCKET, SO_LINGER, &lg, sizeof lg); }
+                    ::close(x.fd);
+                    x.fd = -1;
+                    x.closed = true;
+                    return;
+                }
+            }
+            if (t_send(x, t_end(x))) x.sent_end = true;
+        };
+        auto target_fn = [&](int i) {
+            auto& x = cl[i];
+            Rng q(x.seed);
+            if (!connect_to(x)) return;
+            jitter(q);
+            const std::string line = "REGISTER " + hex_id(static_cast<unsigned>(x.peer)) + "\n";
+            const auto cut = q.below(line.size());
+            if (!t_send(x, line.substr(0, cut))) return;
+            jitter(q);
+            if (!t_send(x, line.substr(cut))) return;
+            bool talked = false;
+            while (true) {
+                const bool last_round = connectors_done.load();
+                if (!t_read(x, 20)) return;   // EOF: the relay closed us (bridge ended, or displaced)
+                if (!talked) {
+                    const auto b = x.rx.find("BEGIN ");
+                    if (b != std::string::npos) {
+                        const auto nl = x.rx.find('\n', b);
+                        if (nl != std::string::npos && x.rx.size() >= nl + 1 + 32) { talked = true; bridged_dialogue(x, q); if (x.closed) return; }
+                    }
+                }
+                if (last_round) return;
+            }
+        };
+        auto connector_fn = [&](int i) {
+            auto& x = cl[i];
+            Rng q(x.seed);
+            if (!connect_to(x)) return;
+            for (int attempt = 0; attempt < 4 && !x.reply_ok; ++attempt) {
+                jitter(q);
+                const auto before = x.rx.size();
+                if (!t_send(x, "CONNECT " + x.self_hex + " " + hex_id(static_cast<unsigned>(x.peer)) + "\n")) return;
+                for (int w = 0; w < 500 && x.rx.find('\n', before) == std::string::npos; ++w) if (!t_read(x, 20)) return;
+                if (x.rx.compare(before, 3, "OK\n") == 0) x.reply_ok = true;
+                else ::usleep(static_cast<useconds_t>(300 + q.below(1500)));
+            }
+            if (!x.reply_ok) {
+                // refused: whatever it sends now must reach nobody
+                if (q.chance(1, 2)) t_send(x, t_token(x) + t_token(x));
+                return;
+            }
+            const auto id = identity_bytes(i);
+            const auto cut = q.below(33);
+            if (!t_send(x, id.substr(0, cut))) return;
+            jitter(q);
+            if (!t_send(x, id.substr(cut))) return;
+            bridged_dialogue(x, q);
+            if (x.closed) return;
+            // wait for the partner's END or EOF, bounded; the verdict is taken after the loop is stopped
+            for (int w = 0; w < 150; ++w) {
+                if (x.rx.find(":END>") != std::string::npos) break;
+                if (!t_read(x, 20)) break;
+            }
+        };
+        auto garbage_fn = [&](int i) {
+            auto& x = cl[i];
+            Rng q(x.seed);
+            if (!connect_to(x)) return;
+            const auto k = q.below(5);
+            std::string bytes;
+            if (k == 0) bytes.assign(1 + q.below(70000), 'A');
+            else if (k == 1) { auto b = q.bytes(1 + q.below(300)); bytes.assign(b.begin(), b.end()); }
+            else if (k == 2) bytes = "REGISTER " + hex_id(static_cast<unsigned>(x.peer)).substr(0, q.below(64)) + "\n";
+            else if (k == 3) bytes = "CONNECT " + x.self_hex + " " + hex_id(static_cast<unsigned>(x.peer)) + "\n" + identity_bytes(i).substr(0, q.below(32));   // claims a target, never completes
+            else bytes = "CONNECT a b\nPONG\n\n";
+            // (no token after a partial identity: its bytes would legitimately become identity bytes)
+            t_send(x, k == 3 ? bytes : bytes + t_token(x));
+            jitter(q);
+            t_read(x, 5);
+            if (q.chance(1, 2)) { ::close(x.fd); x.fd = -1; x.closed = true; }
+        };
+        std::vector<std::thread> tt, tc;
+        for (int i = 0; i < n; ++i) {
+            if (cl[i].role == 0) tt.emplace_back(target_fn, i);
+            else if (cl[i].role == 1) tc.emplace_back(connector_fn, i);
+            else tc.emplace_back(garbage_fn, i);
+        }
+        for (auto& t : tc) t.join();
+        connectors_done.store(true);
+        for (auto& t : tt) t.join();
+        loop.stop();
+        loop_thread.join();
+        if (harness_errors.load()) { c.violation("harness:relay:connect-failed", "{}"); return; }
+
+        // ---- single-threaded from here: serve what is still pending, drain the client sides
+        auto drain = [&] {
+            for (int round = 0; round < 400; ++round) {
+                bool any = false;
+                for (auto& x : cl) if (x.fd >= 0) { const auto before = x.rx.size(); t_read(x, 0); if (x.rx.size() != before) any = true; }
+                server.accept_new_clients();
+                std::vector<std::shared_ptr<RelayServer::ClientSession>> ss;
+                for (auto& [fd, sp] : server.sessions_) { (void)fd; ss.push_back(sp); }
+                for (auto& sp : ss) {
+                    if (sp->closing) continue;
+                    int avail = 0;
+                    ioctl(sp->fd, FIONREAD, &avail);
+                    pollfd p{sp->fd, POLLIN | POLLRDHUP, 0};
+                    poll(&p, 1, 0);
+                    if (avail > 0 || (p.revents & (POLLRDHUP | POLLHUP | POLLERR))) { server.on_client_event(sp, EventLoop::kEventReadable); any = true; }
+                    if (!sp->closing && !sp->write_buffer.empty()) {
+                        const auto before = sp->write_buffer.size();
+                        server.on_client_event(sp, EventLoop::kEventWritable);
+                        if (sp->closing || sp->write_buffer.size() != before) any = true;
+                    }
+                }
+                if (!any) return;
+            }
+        };
+        drain();
+        c.note("threaded.runs");
+
+        // ---- attribution (C25)
+        std::size_t bridges = 0;
+        for (int x = 0; x < n; ++x) {
+            if (!tokens_from(cl[x].rx, x).empty()) c.violation("C25:delivery:client-received-its-own-bytes", J().kv("client", x).kv("mode", "threaded").str());
+            std::vector<int> senders;
+            for (int y = 0; y < n; ++y) if (y != x && !tokens_from(cl[x].rx, y).empty()) senders.push_back(y);
+            if (senders.size() > 1) c.violation("C25:delivery:bytes-from-two-senders-on-one-connection", J().kv("client", x).kv("first", senders[0]).kv("second", senders[1]).str());
+            std::size_t begins = 0;
+            for (std::size_t pos = 0; (pos = cl[x].rx.find("BEGIN ", pos)) != std::string::npos; ++pos) ++begins;
+            if (cl[x].role == 0 && begins > 1) c.violation("C25:pairing:target-claimed-twice", J().kv("client", x).kv("begin_lines", begins).str());
+            for (int y : senders) {
+                c.note("threaded.token-streams-checked");
+                const TClient& t = cl[x].role == 0 ? cl[x] : cl[y];
+                const TClient& k = cl[x].role == 0 ? cl[y] : cl[x];
+                const bool legit = t.role == 0 && k.role == 1 && k.reply_ok && k.peer == t.peer;
+                if (!legit) { c.violation("C25:delivery:bytes-between-clients-that-were-never-bridged", J().kv("from", y).kv("to", x).kv("from_role", cl[y].role).kv("to_role", cl[x].role).str()); continue; }
+                if (cl[x].role == 0) {
+                    const std::string want = "BEGIN " + cl[y].self_hex + "\n" + identity_bytes(y);
+                    const auto at = cl[x].rx.find(want);
+                    const auto first_tok = cl[x].rx.find("<" + std::to_string(y) + ":");
+                    if (at == std::string::npos || at > first_tok) c.violation("C25:pairing:data-before-or-without-begin-and-identity", J().kv("target", x).kv("connector", y).str());
+                }
+                // the other direction may only come from x
+                for (int z = 0; z < n; ++z) if (z != x && z != y && !tokens_from(cl[y].rx, z).empty()) c.violation("C25:pairing:partner-link-not-symmetric", J().kv("a", x).kv("b", y).kv("third", z).kv("mode", "threaded").str());
+                // in order, nothing skipped: what x holds from y is a prefix of what y sent
+                const auto got = tokens_from(cl[x].rx, y);
+                std::size_t ntok = 0;
+                bool prefix_ok = true;
+                for (auto& g : got) {
+                    if (g == t_end(cl[y])) continue;
+                    if (ntok >= cl[y].sent.size() || cl[y].sent[ntok] != g) { prefix_ok = false; break; }
+                    ++ntok;
+                }
+                if (!prefix_ok) c.violation("C25:delivery:tokens-out-of-order-or-duplicated", J().kv("from", y).kv("to", x).kv("at", ntok).kv("mode", "threaded").str());
+                c.note("threaded.tokens-delivered", ntok);
+                // both ends stayed: everything y sent, END included, has arrived now that the relay is quiescent
+                if (!cl[x].closed && !cl[y].closed && cl[y].sent_end && !cl[x].send_failed && !cl[y].send_failed) {
+                    c.note("threaded.complete-directions-checked");
+                    if (ntok != cl[y].sent.size() || cl[x].rx.find(t_end(cl[y])) == std::string::npos)
+                        c.violation("C25:delivery:bridged-bytes-lost-or-reordered", J().kv("from", y).kv("to", x).kv("sent", cl[y].sent.size()).kv("received", ntok).kv("mode", "threaded").str());
+                }
+                if (x < y) ++bridges;
+            }
+        }
+        c.note("threaded.bridges-observed", bridges);
+        std::uint64_t sig = hx::mix(hx::mix(ntargets, nconnectors), hx::mix(ngarbage, npeers));
+        sig = hx::mix(sig, bridges);
+        for (auto& x : cl) sig = hx::mix(sig, hx::mix(x.closed, x.reply_ok));
+
+        if (resources) {
+            // ---- everybody leaves; then nothing may remain (C26)
+            for (auto& x : cl) if (x.fd >= 0) { if (r.chance(1, 3)) { linger lg{1, 0}; setsockopt(x.fd, SOL_SOCKET, SO_LINGER, &lg, sizeof lg); } ::close(x.fd); x.fd = -1; }
+            drain();
+            // a reset connection may only be noticed on the next event for it
+            for (int round = 0; round < 3; ++round) {
+                std::vector<std::shared_ptr<RelayServer::ClientSession>> ss;
+                for (auto& [fd, sp] : server.sessions_) { (void)fd; ss.push_back(sp); }
+                for (auto& sp : ss) if (!sp->closing) server.on_client_event(sp, EventLoop::kEventReadable);
+            }
+            c.note("release.all-clients-left");
+            if (!server.sessions_.empty()) c.violation("C26:release:sessions-remain-after-all-clients-left", J().kv("sessions", server.sessions_.size()).kv("mode", "threaded").str());
+            if (!server.registered_.empty()) c.violation("C26:release:registrations-remain-after-all-clients-left", J().kv("registrations", server.registered_.size()).kv("mode", "threaded").str());
+            const auto now_fds = open_fds();
+            std::size_t extra = 0;
+            for (int fd : now_fds) if (!with_server.count(fd)) ++extra;
+            if (extra) c.violation("C26:release:client-descriptors-still-open", J().kv("count", extra).kv("mode", "threaded").str());
+        } else {
+            for (auto& x : cl) if (x.fd >= 0) { ::close(x.fd); x.fd = -1; }
+        }
+        c.sig(sig);
+        if (c.cur_case % 97 == 0) c.sample(J().kv("mode", "threaded").kv("targets", ntargets).kv("connectors", nconnectors).kv("garbage", ngarbage).kv("ids", npeers).kv("bridges", bridges).str());
+        server.stop();
+    }
+    if (resources) {
+        const auto after = open_fds();
+        for (int fd : after) if (!baseline.count(fd)) { c.violation("C26:release:descriptor-leak-after-server-stop", J().kv("fd", fd).kv("mode", "threaded").str()); break; }
+    }
+}
+void c25t_case(Ctx& c, Rng& r) { relay_threaded_case(c, r, false); }
+void c26t_case(Ctx& c, Rng& r) { relay_threaded_case(c, r, true); }
+HX_PROPERTY("C25t", c25t_case);
+HX_PROPERTY("C26t", c26t_case);
+
 
 struct Init { Init() { signal(SIGPIPE, SIG_IGN); } } g_init;
 
